@@ -345,7 +345,9 @@ def mutate(data, m):
     if k == "type":
         return fixlen(m[1], body)
     if k == "vec":
-        vs = vectors(body, m[3] % 3 if len(m) > 3 else 0)
+        # (vectors behind a short fixed-size or 1-byte-length prefix start
+        # at small odd offsets: TLS 1.2 CertificateRequest, ServerKeyExchange)
+        vs = vectors(body, m[3] % 8 if len(m) > 3 else 0)
         if not vs:
             return None
         p, ln = vs[m[1] % len(vs)]
@@ -902,7 +904,7 @@ def mut_strategy():
              254, 99])),
         st.tuples(st.just("vec"), i, st.sampled_from(
             ["zero", "one", "ones", "empty", "byte", "huge", "minus1"]),
-            st.integers(0, 2)),
+            st.integers(0, 7)),
         st.tuples(st.just("ext"), st.sampled_from(EXT_OPS), i, i),
         st.tuples(st.just("ext"), st.sampled_from(EXT_OPS), i, i),
         st.tuples(st.just("ext"), st.just("typed"), st.just(0),
@@ -1010,7 +1012,10 @@ def explicit(tier, seed):
     fixed = [["empty"], ["zero"], ["trunc", 0], ["extend", 0],
              ["hugelen", 7], ["flip", 0, 0xff], ["setlen", 0, 2, "max"],
              ["setlen", 0, 1, "zero"], ["vec", 0, "empty", 0],
-             ["vec", 1, "zero", 0], ["vec", 0, "huge", 0]]
+             ["vec", 1, "zero", 0], ["vec", 0, "huge", 0],
+             ["vec", 1, "empty", 0], ["vec", 2, "empty", 0],
+             ["vec", 3, "empty", 0]] + [
+                 ["vec", 0, "empty", st_] for st_ in range(1, 8)]
     ext_fixed = [["ext", op, w, 3] for op in EXT_OPS for w in range(
         14 if tier == "thorough" else 6)]
     for fl in FL_NAMES:
